@@ -1,5 +1,5 @@
 #!/bin/sh
-# C03 / C04 known findings, shown on the real binary by cutting the log exactly where a killed
+# C03 known finding (and the repaired C04 one), shown on the real binary by cutting the log exactly where a killed
 # process would have left it (earlier write(2)s are in the file, later ones never happen).
 T=$(mktemp -d); trap 'rm -rf "$T"' EXIT
 (cd /repo && GOFLAGS=-mod=mod GOPROXY=off go build -o "$T/ergo" ./cmd/ergo) || exit 2
@@ -13,12 +13,11 @@ printf '{"type":"new_task","ts":"2026-01-01T00:00:00Z","data":{"id":"ZZZZZ' >> .
 echo '{"title":"b"}' | "$E" new task >/dev/null 2>&1; echo "later new task: exit=$?"
 if ! "$E" --json list </dev/null >/dev/null 2>"$T/err"; then echo "REPRODUCED C03: store unreadable after a later mutation: $(head -c 120 "$T/err")"; R=1; fi
 
-ws  # C04: claim = two write(2)s (claim, state); killed between them
+# C04 (one write(2) per event) was repaired in /repo (749f4e5): strace shows one write for claim
+ws
 A=$(echo '{"title":"a"}' | "$E" new task)
-cp .ergo/plans.jsonl "$T/before"
-"$E" --agent x claim </dev/null >/dev/null
-head -n $(( $(wc -l < "$T/before") + 1 )) .ergo/plans.jsonl > "$T/cut" && cp "$T/cut" .ergo/plans.jsonl   # only the first of the two lines landed
-S=$("$E" --json show $A </dev/null)
-echo "$S" | grep -q '"state":"todo"' && echo "$S" | grep -q '"claimed_by":"x"' && { echo "REPRODUCED C04: task is todo but claimed by x (never ready again)"; R=1; }
-"$E" --agent y claim </dev/null
+if command -v strace >/dev/null 2>&1; then
+  N=$(strace -f -s 300 -e trace=write -o "$T/tr" "$E" --agent x claim </dev/null >/dev/null 2>&1; grep -c 'claimed_by\|"type":"claim"' "$T/tr")
+  echo "claim: write(2) calls carrying event lines: $N (1 = the whole command in one call)"
+fi
 exit $R
